@@ -36,8 +36,8 @@ const (
 	// frames legitimately cost ~70 bytes of allocation per byte received (error
 	// texts, case folding, reply buffers), while the defect class this bound
 	// exists for (allocating from a declared length) is 10^5-10^8 x.
-	vsAllocFactor  = 256
-	vsAllocSlack   = 256 << 10
+	vsAllocFactor = 256
+	vsAllocSlack  = 256 << 10
 )
 
 // ---------------------------------------------------------------------------
@@ -569,7 +569,6 @@ func vsParsePlan(c *sim.Case) []int {
 	}
 	return out
 }
-
 
 // vsHangupOnWellFormed reports the violation "the peer closed the connection
 // inside a well-formed frame": legitimate only after an idle period as long as
